@@ -37,3 +37,20 @@ Definition result_obs_eqb (r : result (engine float)) (expected : obs + nat) : b
   | Err x, inr c => Nat.eqb (err_code x) c
   | _, _ => false
   end.
+
+(* ---- stores of engines (property C13) *)
+Definition store_obs : Type := (list obs * nat)%type.
+Definition observe_store (s : list (engine float) * nat) : store_obs := (map observe (fst s), snd s).
+Definition store_obs_eqb (a b : store_obs) : bool := list_eqb obs_eqb (fst a) (fst b) && Nat.eqb (snd a) (snd b).
+Definition step_result_eqb (r : result (list (engine float) * nat)) (expected : store_obs + nat) : bool :=
+  match r, expected with
+  | Ok s, inl o => store_obs_eqb (observe_store s) o
+  | Err x, inr c => Nat.eqb (err_code x) c
+  | _, _ => false
+  end.
+Fixpoint steps_eqb (rs : list (result (list (engine float) * nat))) (es : list (store_obs + nat)) : bool :=
+  match rs, es with
+  | [], [] => true
+  | r :: rs', e :: es' => step_result_eqb r e && steps_eqb rs' es'
+  | _, _ => false
+  end.
